@@ -37,7 +37,7 @@ def knapsack_text(cap, items, comment=False):
 
 
 def gen_knapsack(r, i):
-    shape = ["plain", "plain", "ties", "zero_weight", "single", "ratio_floor", "ratio_floor", "tight", "zero_cap",
+    shape = ["plain", "plain", "ties", "zero_weight", "single", "ratio_floor", "ratio_floor2", "tight", "zero_cap",
              "negative_profit"][i % 10]
     cls = "core"
     if shape == "single":
@@ -77,6 +77,17 @@ def gen_knapsack(r, i):
         items = pre + items
         cap = sum(x[1] for x in pre) + c * r.choice([1, 1, 2])
         if r.chance(1, 4): r.shuffle(items)
+    elif shape == "ratio_floor2":
+        # same defect, looser recipe (the one that produced wrong objectives at width 1): the split item, an item of the same
+        # ratio that fits the residual capacity, a few items of a slightly better ratio in front, a few slightly worse behind
+        c, w, p = r.choice(FLOOR_TRIPLES)
+        items = [(p, w), (c * p // w, c)]
+        for _ in range(r.range(1, 3)):
+            dw = r.range(1, 8); dp = (p * dw) // w + r.range(0, 6)
+            items.insert(r.below(len(items) + 1) if r.chance(1, 3) else 0, (dp, dw))
+        for _ in range(r.range(0, 2)):
+            xw = r.range(1, 9); items.append((max(1, (p * xw) // w - r.range(0, 5)), xw))
+        cap = r.range(c, max(c, sum(x[1] for x in items) - 1))
     elif shape == "negative_profit":
         n = r.range(1, 7)
         items = [(r.range(-10, 20), r.range(1, 9)) for _ in range(n)]
@@ -558,6 +569,9 @@ def corpus(example):
             ("core", knapsack_text(8, [(100, 1), (90, 10), (63, 7), (62, 7)])),      # rub floor((7/10)*90) = 62 < 63
             ("core", knapsack_text(14, [(63, 7), (90, 10), (63, 7), (62, 7)])),
             ("core", knapsack_text(2, [(98, 49), (2, 1), (2, 1), (1, 1)])),          # rub floor((1/49)*98) = 1 < 2
+            ("core", knapsack_text(12, [(5, 5), (4, 2), (55, 55), (7, 7)])),         # optimum 12, width 1 prints 11: (7/55)*55 = 6.999..
+            ("core", knapsack_text(18, [(8, 2), (98, 49), (7, 1), (32, 16)])),       # optimum 40, width 1 prints 39
+            ("core", knapsack_text(15, [(11, 5), (52, 26), (30, 15), (18, 9)])),     # optimum 30, width 1 prints 29
         ],
         "misp": [("negative-weight", misp_text(3, {0: 5, 1: -6, 2: 7}, [(1, 2), (2, 0)]))],          # optimum 7, width 1 prints 5
         "max2sat": [
@@ -578,7 +592,7 @@ def corpus(example):
         "alp": [("core", alp_text(1, [(0, 0, 0), (0, 0, 0)], [[1]])),                                # infeasible
                 ("nonagreeable-windows", alp_text(1, [(0, 100, 0), (1, 5, 0)], [[10]]))],            # optimum 11, the DP finds nothing
     }
-    return [inst(example, text, "corpus", len(text), cls) for (cls, text) in C.get(example, [])]
+    return [inst(example, text, "corpus", 0, cls) for (cls, text) in C.get(example, [])]
 
 
 # ------------------------------------------------------------------------------------------------ dispatch
